@@ -53,7 +53,7 @@ def main():
             if not os.path.isfile(file_in):
                 logger.error('Could not open file "%s"' % (file_in))
 
-            fd_out = tempfile.TemporaryFile(mode='w+', encoding='ascii')
+            fd_out = tempfile.TemporaryFile(mode='w+', encoding='ascii', newline='')  # CR may be a terminator or data
             src = pyx12.x12file.X12Reader(file_in)
             for seg_data in src:
                 if args.fixcounting:
@@ -75,11 +75,11 @@ def main():
 
             fd_out.seek(0)
             if args.outputfile:
-                with open(args.outputfile, mode='w', encoding='ascii') as fd_final:
+                with open(args.outputfile, mode='w', encoding='ascii', newline='') as fd_final:
                     fd_final.write(fd_out.read())
             else:
                 if args.inplace:
-                    with open(file_in, mode='w', encoding='ascii') as fd_orig:
+                    with open(file_in, mode='w', encoding='ascii', newline='') as fd_orig:
                         fd_orig.write(fd_out.read())
                 else:
                     sys.stdout.write(fd_out.read())
